@@ -183,7 +183,7 @@ pub(crate) fn len_ok(long: Option<bool>, over: Option<bool>, n: usize) -> bool {
         && (match over { Some(b) => if b { n >= 3 } else { n <= 2 }, None => true })
 }
 
-//% props=C05 tier=quick kind=P pair=SubRule::match_stress,SubRule::match_tone clause="stress / tone matching table for all 3 stresses x 5^2 slots (binary, alpha, -alpha; bound and unbound)"
+//% props=C05,C07 tier=quick kind=P pair=SubRule::match_stress,SubRule::match_tone clause="stress / tone matching table for all 3 stresses x 5^2 slots (binary, alpha, -alpha; bound and unbound)"
 #[kani::proof]
 #[kani::unwind(5)]
 fn k4_match_stress_tone() {
@@ -232,7 +232,7 @@ fn k4_match_stress_tone() {
     assert!(sr.match_tone(&t, &sy) == (t == t0), "[tone:n] matches the whole tone, 0 = none");
 }
 
-//% props=C05 tier=quick kind=B timeout=900 bound="syllables of exactly 4 segments with the run (length 1..4) starting at index 0 or 1; get_seg_length_at itself is proved for all lengths in Verus" pair=SubRule::match_seg_length,Word::seg_length_at,Syllable::get_seg_length_at clause="length matching = len_ok(run length) for binary / alpha slots on a real VecDeque"
+//% props=C05,C07 tier=quick kind=B timeout=900 bound="syllables of exactly 4 segments with the run (length 1..4) starting at index 0 or 1; get_seg_length_at itself is proved for all lengths in Verus" pair=SubRule::match_seg_length,Word::seg_length_at,Syllable::get_seg_length_at clause="length matching = len_ok(run length) for binary / alpha slots on a real VecDeque"
 #[kani::proof]
 #[kani::unwind(6)]
 fn k4_match_seg_length() {
@@ -355,3 +355,122 @@ fn k3b_context_boundaries() {
     assert!(matches!(r4, Ok(b) if b == (gi == 0)), "`$` as a set member matches exactly at segment index 0, also at the word edges");
     assert!(p3 == p0 && p4 == p0, "a boundary in a set consumes nothing");
 }
+
+
+// =====================================================================================
+// Modular (stub-by-contract) versions: the callee proved for ALL words in the Verus kernels
+// `supras` / `positions` is replaced by an arbitrary value allowed by its contract, which makes the
+// caller's harness independent of the word's shape -> complete instead of bounded.
+// =====================================================================================
+static mut ANY_LEN: usize = 1;
+static mut ANY_OOB: bool = false;
+/// contract of Word::seg_length_at (Verus: seg_length_at / get_seg_length_at.run, .bounds): some run length >= 1
+fn stub_seg_length_at(_w: &Word, _p: SegPos) -> usize { unsafe { ANY_LEN } }
+/// contract of Word::out_of_bounds (Verus: out_of_bounds.is_word_boundary_test): a boolean function of (word, position)
+fn stub_out_of_bounds(_w: &Word, _p: SegPos) -> bool { unsafe { ANY_OOB } }
+
+//% props=C05,C07 tier=quick kind=P timeout=900 pair=SubRule::match_seg_length clause="length matching = len_ok(run length) and the capture rule, for EVERY run length (Word::seg_length_at replaced by its Verus-proved contract)"
+#[kani::proof]
+#[kani::unwind(5)]
+#[kani::stub(crate::word::Word::seg_length_at, stub_seg_length_at)]
+fn k4_match_seg_length_modular() {
+    let n: usize = kani::any();
+    kani::assume(n >= 1);
+    unsafe { ANY_LEN = n; }
+    let w = mk_word(Vec::new());
+    let sr = mk_subrule();
+    let bound: Option<Alpha> = if kani::any() { let x = any_alpha_value(); sr.alphas.borrow_mut().insert('α', x.clone()); Some(x) } else { None };
+    let length = [any_supra_slot(), any_supra_slot()];
+    let pos = SegPos::new(kani::any(), kani::any());
+    let r = sr.match_seg_length(&w, &length, &pos);
+    let mut bnd = bound.clone();
+    let mut want = true;
+    match slot_truth(&length[0], &bnd) {
+        None => {}
+        Some(Some(t)) => want = want && (if t { n >= 2 } else { n <= 1 }),
+        Some(None) => { let inv = matches!(length[0], Some(ModKind::Alpha(AlphaMod::InvAlpha(_)))); bnd = Some(Alpha::Supra((n > 1) != inv)); }
+    }
+    if want {
+        match slot_truth(&length[1], &bnd) {
+            None => {}
+            Some(Some(t)) => want = want && (if t { n >= 3 } else { n <= 2 }),
+            Some(None) => {}
+        }
+    }
+    assert!(matches!(r, Ok(x) if x == want), "length matching table for every run length");
+    if bound.is_none() && want {
+        let inv = |m: &Option<ModKind>| matches!(m, Some(ModKind::Alpha(AlphaMod::InvAlpha(_))));
+        let is_a = |m: &Option<ModKind>| matches!(m, Some(ModKind::Alpha(_)));
+        let al = sr.alphas.borrow();
+        if is_a(&length[0]) {
+            assert!(matches!(al.get(&'α'), Some(Alpha::Supra(v)) if *v == ((n > 1) != inv(&length[0]))), "alpha on long captures n > 1");
+        } else if is_a(&length[1]) {
+            assert!(matches!(al.get(&'α'), Some(Alpha::Supra(v)) if *v == ((n > 2) != inv(&length[1]))), "alpha on overlong captures n > 2");
+        }
+    }
+    kani::cover!(n > 3 && want);
+}
+
+//% props=C03 tier=quick kind=P timeout=900 pair=SubRule::context_match,SubRule::context_match_set clause="`#` is exactly the out-of-bounds test and `$` exactly segment index 0 (not the word start when inserting before), alone and as set members, for EVERY word and position (Word::out_of_bounds replaced by its Verus-proved contract)"
+#[kani::proof]
+#[kani::unwind(5)]
+#[kani::stub(crate::word::Word::out_of_bounds, stub_out_of_bounds)]
+fn k3b_context_boundaries_modular() {
+    let oob: bool = kani::any();
+    unsafe { ANY_OOB = oob; }
+    let w = mk_word(Vec::new());
+    let sr = mk_subrule();
+    let si: usize = kani::any();
+    let gi: usize = kani::any();
+    let p0 = SegPos::new(si, gi);
+    let fwd: bool = kani::any();
+    let ins: bool = kani::any();
+    let wb = [Item::new(ParseElement::WordBound, pos0())];
+    let sb = [Item::new(ParseElement::SyllBound, pos0())];
+    let mut idx = 0usize;
+    let mut p = p0;
+    assert!(matches!(sr.context_match(&wb, &mut idx, &w, &mut p, fwd, ins), Ok(b) if b == oob), "`#` == out_of_bounds(pos)");
+    let mut p2 = p0;
+    assert!(matches!(sr.context_match(&sb, &mut idx, &w, &mut p2, fwd, ins), Ok(b) if b == (gi == 0 && !(ins && si == 0))), "`$` == segment index 0 (and not word start when inserting before)");
+    let mut p3 = p0;
+    assert!(matches!(sr.context_match_set(&wb, &w, &mut p3, fwd), Ok(b) if b == oob), "`#` in a set == out_of_bounds(pos)");
+    let mut p4 = p0;
+    assert!(matches!(sr.context_match_set(&sb, &w, &mut p4, fwd), Ok(b) if b == (gi == 0)), "`$` in a set == segment index 0");
+    assert!(p == p0 && p2 == p0 && p3 == p0 && p4 == p0 && idx == 0, "boundaries consume nothing");
+}
+
+// =====================================================================================
+// C14 at the SubRule wrappers: prosodic modifiers never touch segments or other syllables;
+// segmental modifiers never touch stress, tone, syllable count or other segments
+// =====================================================================================
+fn subrule_apply_syll_mods_case(idx: usize) {
+    let s = [any_wf_segment(), any_wf_segment(), any_wf_segment()];
+    let st = [any_stress(), any_stress()];
+    let tn: [u16; 2] = [kani::any(), kani::any()];
+    let mut w = mk_word(vec![mk_syll(&[s[0], s[1]], st[0], tn[0]), mk_syll(&[s[2]], st[1], tn[1])]);
+    let sr = mk_subrule();
+    let mods = SupraSegs { stress: [any_binmod(), any_binmod()], length: [None, None], tone: kani::any() };
+    let var: Option<usize> = None;
+    let r = sr.apply_syll_mods(&mut w, idx, &mods, &var, pos0());
+    assert!(w.syllables.len() == 2 && w.syllables[0].segments.len() == 2 && w.syllables[1].segments.len() == 1, "no syllable or segment added or dropped");
+    assert!(w.syllables[0].segments[0] == s[0] && w.syllables[0].segments[1] == s[1] && w.syllables[1].segments[0] == s[2], "C14: prosody-only change never alters a segment");
+    let other = 1 - idx;
+    assert!(w.syllables[other].stress == st[other] && w.syllables[other].tone == tn[other], "the other syllable keeps its stress and tone");
+    match stress_target(bin(mods.stress[0]), bin(mods.stress[1]), st[idx]) {
+        Some(t) => {
+            assert!(r.is_ok());
+            assert!(w.syllables[idx].stress == t && w.syllables[idx].tone == match mods.tone { Some(x) => x, None => tn[idx] }, "target syllable follows the table");
+            if var.is_some() { assert!(matches!(sr.variables.borrow().get(&1), Some(VarKind::Syllable(sy)) if *sy == w.syllables[idx]), "the variable captures the updated syllable"); }
+        }
+        None => assert!(r.is_err() && w.syllables[idx].stress == st[idx] && w.syllables[idx].tone == tn[idx]),
+    }
+}
+
+//% props=C14,C05 tier=quick kind=B bound="one word shape: syllables of 2 and 1 segments; target = first syllable; no variable" timeout=900 pair=SubRule::apply_syll_mods,Syllable::apply_syll_mods clause="a stress/tone modifier on one syllable changes only that syllable's stress/tone (per the table); every segment and the other syllable are untouched"
+#[kani::proof]
+#[kani::unwind(5)]
+fn k14_subrule_apply_syll_mods_first() { subrule_apply_syll_mods_case(0) }
+//% props=C14,C05 tier=quick kind=B bound="one word shape: syllables of 2 and 1 segments; target = second syllable; no variable" timeout=900 pair=SubRule::apply_syll_mods,Syllable::apply_syll_mods clause="as above, second syllable"
+#[kani::proof]
+#[kani::unwind(5)]
+fn k14_subrule_apply_syll_mods_second() { subrule_apply_syll_mods_case(1) }
